@@ -153,3 +153,35 @@ class G2Class:
 class Named:
     size_total: int = 1
     label: str = "l"
+
+
+class MidAbstract(Base, abc.ABC):
+    """An abstract intermediate class below the base."""
+
+    @abc.abstractmethod
+    def act(self):
+        ...
+
+
+class Leaf(MidAbstract):
+    """A concrete class below an abstract intermediate."""
+
+    def __init__(self, w: int = 6, depth: int = 1):
+        self.w = w
+        self.depth = depth
+        LOG.append((type(self).__name__, dict(w=w, depth=depth), self))
+
+    def act(self):
+        return self.w
+
+
+@dataclass
+class G3:
+    tags: Optional[List[int]]
+    n: int = 1
+    lit: Optional[Dict[str, int]] = None
+
+
+class G3Class:
+    def __init__(self, tags: Optional[List[int]], n: int = 1, lit: Optional[Dict[str, int]] = None):
+        self.tags, self.n, self.lit = tags, n, lit
